@@ -24,8 +24,12 @@
 (* File kinds: src (x.go), testish (x_tests.go: an ordinary source whose    *)
 (* name merely contains _test), gotest (x_test.go), gold (x.gold.v),        *)
 (* exttest (x_test.go whose package clause is <pkg>_test), backup (x.go~),   *)
-(* symsrc (x.go that is a symbolic link to a source file elsewhere: a src).  *)
-(* Only src and testish files are read.                                     *)
+(* symsrc (x.go that is a symbolic link to a source file elsewhere: a src),  *)
+(* subdir (a sub-directory of the package directory holding a source file   *)
+(* with these lines: a nested package or test data, not part of the package). *)
+(* Only src, symsrc and testish files are read.  How the directory itself is *)
+(* named on the command line (odd characters, through a symbolic link) does  *)
+(* not matter.                                                               *)
 EXTENDS Integers, Sequences, TLC, Json
 
 CONSTANT Cases        \* sequence of directories: each a sequence of [kind, name, lines: Seq([class, n])]
